@@ -78,7 +78,17 @@ pub fn main(args: &BTreeMap<String, String>) {
             let cols: Vec<usize> = if rng.gen_bool(0.3) { vec![0, 1] } else { vec![0] };
             let mut hi = HashIndex::new(JoinKeySpec::new("r", cols.clone()), [0usize, 1, 16][rng.gen_range(0..3)]);
             writeln!(f, "{}", json!({"ev":"hi_new","case":case,"cols":cols.iter().map(|c| c + 1).collect::<Vec<_>>()})).unwrap();
-            let mk = |rng: &mut StdRng| Tuple::new(vec![key(rng), Value::Int64(rng.gen_range(0..2)), Value::Int64(rng.gen_range(0..3))]);
+            // 40% of the tuples repeat one used before in this history (the index keeps duplicates:
+            // inserting twice and removing once must leave one copy)
+            let mut used: Vec<Tuple> = vec![];
+            let mut mk = |rng: &mut StdRng| -> Tuple {
+                if !used.is_empty() && rng.gen_bool(0.4) {
+                    return used[rng.gen_range(0..used.len())].clone();
+                }
+                let t = Tuple::new(vec![key(rng), Value::Int64(rng.gen_range(0..2)), Value::Int64(rng.gen_range(0..3))]);
+                used.push(t.clone());
+                t
+            };
             for _ in 0..rng.gen_range(4..16) {
                 match rng.gen_range(0..12) {
                     0..=3 => {
